@@ -45,7 +45,7 @@ Runnable(st, k) ==
     [] tk.ph = "body" ->
          CASE tk.kind \in RepeatKinds -> st.now >= tk.fur
            [] tk.kind = "future" -> st.futs[tk.x] # <<>>
-           [] tk.kind = "stream" -> st.streams[tk.x] # <<>>
+           [] tk.kind = "stream" -> st.streams[tk.x] # <<>> \/ Fin(st, tk.obs) = 1
            [] OTHER -> TRUE
     [] OTHER -> FALSE
 
@@ -122,8 +122,10 @@ SchedStep(st, fr) ==
          Push([st EXCEPT !.tasks[k].seq = @ + 1, !.tasks[k].fur = st.now + st.tasks[k].p,
                          !.timerlog = Append(@, st.tasks[k].p)], <<F1("tick", k)>>)
     [] fr.f = "streamstep" ->    \* StreamObserverFuture::poll: drain what the stream has, end on None / Err
-         LET k == fr.n tk == st.tasks[k] q == st.streams[tk.x] IN
-         IF q = <<>> THEN st
+         LET k == fr.n tk == st.tasks[k] q == st.streams[tk.x] fin == Fin(st, tk.obs) IN
+         IF fin = 2 THEN Fault(st, "reentry")
+         ELSE IF fin = 1 THEN Push(st, <<F1("taskdone", k)>>)          \* nobody wants further items: retire
+         ELSE IF q = <<>> THEN st
          ELSE LET m == Head(q)
                   st1 == [st EXCEPT !.streams[tk.x] = Tail(@)] IN
               IF m[1] = "N" THEN Push(st1, <<CallN(tk.obs, m[2]), F1("streamstep", k)>>)
@@ -137,17 +139,18 @@ SchedStep(st, fr) ==
          IF hc.f THEN Push([st EXCEPT !.nodes[fr.n].f = FALSE], <<Unsub(hc.n)>>) ELSE st
     [] fr.f = "debstore" ->      \* holding the handle cell: *task_handler = Some(top of value stack)
          [PopV(st) EXCEPT !.nodes[fr.n].f = TRUE, !.nodes[fr.n].n = TopV(st)]
-    [] fr.f = "thrnext2" ->      \* ThrottleObserver::next after the trailing value was stored
-         LET n == fr.n nd == st.nodes[n]
-             c == Closed(st, nd.n) IN
+    [] fr.f = "thrnext2" ->      \* ThrottleObserver::next after the trailing value was stored; nd.n = the handle cell
+         LET n == fr.n nd == st.nodes[n] hc == st.nodes[nd.n]
+             c == IF RHeld(hc) THEN 2 ELSE IF ~hc.f THEN 1 ELSE Closed(st, hc.n) IN
          IF c = 2 THEN Fault(st, "reentry")
          ELSE IF c = 0 THEN st                       \* a window is open
          ELSE LET d == IF nd.a > 0 THEN nd.a ELSE (W(fr.v) % 2) + 1       \* duration_selector
                   st1 == SpawnOnce(st, "trail", d, nd.d, nd.c, 0, "", U)
-                  st2 == [PopV(st1) EXCEPT !.nodes[n].n = TopV(st1)] IN
+                  store == <<Acq(nd.n), F1("debstore", nd.n), Rel(nd.n)>> IN
               (* leading edge: the opener is emitted now and taken out of the trailing-value cell *)
               IF nd.b \in {1, 3}
-              THEN Push(st2, <<Acq(nd.c), Fr("vset", nd.c, "", NoneV, 0), Rel(nd.c), CallN(nd.d, fr.v)>>) ELSE st2
+              THEN Push(st1, <<Acq(nd.c), Fr("vset", nd.c, "", NoneV, 0), Rel(nd.c), CallN(nd.d, fr.v)>> \o store)
+              ELSE Push(st1, store)
     [] fr.f = "runone" ->        \* poll task n if it exists and is not finished
          IF fr.n <= Len(st.tasks) /\ st.tasks[fr.n].ph # "done" THEN Push(st, PollFrames(st, fr.n)) ELSE st
     [] fr.f = "runall" ->        \* the prompt executor: sweep all unfinished tasks in creation order (tasks spawned
@@ -188,7 +191,8 @@ SchedStep2(st, fr) ==
     [] fr.f = "valflush" ->      \* holding the trailing-value cell: emit what is pending
          LET nd == st.nodes[fr.n] vc == st.nodes[nd.c] IN
          IF IsSome(vc.v) THEN Push([st EXCEPT !.nodes[nd.c].v = NoneV], <<CallN(nd.d, Unwrap(vc.v))>>) ELSE st
-    [] fr.f = "unsubcur" -> Push(st, <<Unsub(st.nodes[fr.n].n)>>)
+    [] fr.f = "unsubcur" ->      \* if let Some(handler) = task_handler.take() { handler.unsubscribe() }
+         Push(st, <<Acq(st.nodes[fr.n].n), F1("debcancel", st.nodes[fr.n].n), Rel(st.nodes[fr.n].n)>>)
     [] OTHER -> Fault(st, "spec:unknown-sched-frame2")
 SchedFrames2 == {"debsched", "valflush", "unsubcur"}
 
@@ -213,16 +217,14 @@ SchedSub(st, fr) ==
                       [Node("debobs", id) EXCEPT !.c = id + 1, !.b = id + 2, !.a = PA(x)])
              st2 == AddSub(st1, SubRec("optcell", id + 2, 0)) IN
          Push(st2, <<Sub(S1(x), id + 3), F1("retsub", Len(st2.subs)), F0("mkzip")>>)
-    [] o = "throttle" ->         \* slot id, value cell id+1, a finished handle id+2 (window closed), observer id+3
+    [] o = "throttle" ->         \* slot id, value cell id+1, handle cell id+2 (None: no window yet), observer id+3 (all MutArc)
          LET st1 == AddNode(AddNode(AddNode(AddNode(st,
                       [Node("slot", n) EXCEPT !.m = "arc"]),
                       [Node("valcell", 0) EXCEPT !.m = "arc", !.v = NoneV]),
-                      [Node("hinfo", 0) EXCEPT !.m = "arc", !.f = TRUE, !.g = TRUE]),
-                      Node("throbs", id))
-             st2 == AddSub(st1, SubRec("task", id + 2, 0))
-             st3 == [st2 EXCEPT !.nodes[id + 3].c = id + 1, !.nodes[id + 3].a = PA(x), !.nodes[id + 3].b = PB(x),
-                                !.nodes[id + 3].n = Len(st2.subs)] IN
-         Push(st3, <<Sub(S1(x), id + 3)>>)
+                      [Node("hcell", 0) EXCEPT !.m = "arc", !.f = FALSE]),
+                      [Node("throbs", id) EXCEPT !.c = id + 1, !.n = id + 2, !.a = PA(x), !.b = PB(x)])
+             st2 == AddSub(st1, SubRec("optcell", id + 2, 0)) IN
+         Push(st2, <<Sub(S1(x), id + 3), F1("retsub", Len(st2.subs)), F0("mkzip")>>)
     [] o = "buffer_time" \/ o = "buffer_count_time" ->   \* the repeating flush task is scheduled BEFORE the source is subscribed
          LET st1 == AddNode(st, [Node("bufcell", n) EXCEPT !.m = "arc", !.a = IF o = "buffer_time" THEN 0 ELSE PA(x)])
              per == IF o = "buffer_time" THEN PA(x) ELSE PB(x)
